@@ -363,6 +363,36 @@ def pair_fault(lab, mon, case, struct, k1, k2, H0):
             mon.check("pair.owner_is_hook_error", st == "hook_error",
                       lambda: RB.witness(c2, owner=list(own), hook=list(map(str, obs.hooks[kk])), status=st))
 
+def fault_then_clean_run(lab, mon, case, rng):
+    """Run 1 with a raising hook, then reset_model() and a fault-free run 2 of the same model on the same runner: run 2 is
+    indistinguishable from a fault-free first run (same hook calls, same statuses)."""
+    from behave.model import reset_model
+    if case["cfg"]["dry_run"]:
+        return
+    obs0 = lab.run(case["program"], args=case["args"])
+    if obs0.escaped is not None or not obs0.hooks:
+        return
+    k = rng.randrange(len(obs0.hooks))
+    second = {}
+
+    def second_run(st):
+        reset_model(st.features)
+        st.calls[:] = []
+        st.hooks[:] = []
+        second["verdict"] = st.runner.run()
+    obs = lab.run(case["program"], args=case["args"], hook_fault={"k": k, "exc": rng.choice(["Exception", "AssertionError"])},
+                  second_run=second_run)
+    mon.case(("fault-then-clean", RB.strip_case(case), k), True)
+    W = lambda **kw: RB.witness(case, fault_in_run_1=list(map(str, obs0.hooks[k])), **kw)
+    if obs.escaped is not None:
+        mon.check("history.no_exception_escapes", False, lambda: W(escaped=repr(obs.escaped)))
+        return
+    mon.check("history.clean_run_after_faulty_run_same_hooks", obs.hooks == obs0.hooks,
+              lambda: W(got=[list(map(str, h)) for h in obs.hooks[:30]], want=[list(map(str, h)) for h in obs0.hooks[:30]]))
+    diff = {n: (obs.elem_status.get(n), st) for n, st in obs0.elem_status.items() if obs.elem_status.get(n) != st}
+    mon.check("history.clean_run_after_faulty_run_same_statuses", not diff and bool(second.get("verdict")) == bool(obs0.verdict),
+              lambda: W(differences=dict(list(diff.items())[:6]), verdict_run2=second.get("verdict"), verdict_fault_free=obs0.verdict))
+
 
 def run(spec, mon):
     from ..lab.inproc import RunLab
@@ -376,6 +406,8 @@ def run(spec, mon):
                "p_empty_examples": 0.0, "p_stepless": 0.0, "p_param_tag": 0.4}
         case = RB.gen_case(rng, gen=gen, p_stop=0.25, p_dry=0.08, p_noskipped=0.3, p_user_skip=0.15)
         run_program(lab, mon, case, rng, tier, sample=(i == 0 and spec["shard"] == 0))
+        for _ in range(3):
+            fault_then_clean_run(lab, mon, case, rng)
 
 
 def replay(case, mon):
